@@ -80,7 +80,7 @@ NW == Len(Sc.ws)
 (* ------------------------------ values --------------------------------- *)
 Hosts == <<"A", "B">>
 HI(h) == IF h = "A" THEN 1 ELSE 2
-EmptyVal == << <<>>, <<>>, 0 >>
+EmptyVal == << <<>>, <<>>, "0" >>
 \* registry.go: what each command makes of the loaded configuration
 Apply(c, v) ==
   CASE c.kind = "put" -> c.val
@@ -124,8 +124,9 @@ TmpSeq == SelectSeq([i \in Slots |-> i], LAMBDA i : fs.tmp[i].ex)
 Facts == [cfg |-> CfgLabel, cfg_mode |-> fs.cfg.mode, cfg_uid |-> fs.cfg.uid, cfg_gid |-> fs.cfg.gid,
           dir_ex |-> IF DirEx THEN 1 ELSE 0, dir_mode |-> IF DirEx THEN fs.dir_mode ELSE 0,
           tmp_go |-> [i \in 1..Len(TmpSeq) |-> GO(fs.tmp[TmpSeq[i]].mode)] \o [i \in 1..fs.stale |-> 0],
-          tmp_n |-> Len(TmpSeq) + fs.stale]
-Ident == [priv |-> IF Sc.id.uid = 0 THEN 1 ELSE 0, uid |-> Sc.id.uid, gid |-> Sc.id.gid]
+          tmp_n |-> Len(TmpSeq) + fs.stale, others |-> "none"]     \* (D) has no other files: nothing to touch
+\* "may set the owner": root, unless the scenario makes its chown fail (then the code goes on, the error is ignored)
+Ident == [priv |-> IF Sc.id.uid = 0 /\ \A i \in 1..Len(Sc.ws) : Sc.ws[i].fault.at # "chown" THEN 1 ELSE 0, uid |-> Sc.id.uid, gid |-> Sc.id.gid]
 CurTab == CASE fs.cfg.kind = "none" -> [TabOf(EmptyVal) EXCEPT !.parse = "absent"]
             [] fs.cfg.kind = "file" /\ Complete(fs.cfg) -> TabOf(fs.cfg.c)
             [] OTHER -> [TabOf(EmptyVal) EXCEPT !.parse = "bad"]
@@ -354,10 +355,11 @@ RaceEndFail ==
 RaceEndOk == RaceEndFail = <<>>
 
 \* a fresh reader (ConfigLoadDefault) can load what a crash left behind
-FreshOk == ctl.phase = "crashed" => CurTab.parse # "bad"
+StartReadable == Sc.start.cfg.kind = "none" \/ (Sc.start.cfg.kind = "file" /\ Sc.start.cfg.n = Sc.start.cfg.sz)
+FreshOk == (ctl.phase = "crashed" /\ StartReadable) => CurTab.parse # "bad"
 
 \* the re-run of an interrupted command succeeds (nothing a crash leaves behind blocks it)
-RetryOk == (ctl.phase = "end" /\ ctl.ended # 0) => (pr[ctl.ended].err = "" \/ fs.cfg.kind = "dir")
+RetryOk == (ctl.phase = "end" /\ ctl.ended # 0) => (pr[ctl.ended].err = "" \/ ~StartReadable)
 
 \* sanity of the model itself
 TypeOk == /\ fs.miss \in 0..2 /\ fs.cfg.kind \in {"none", "file", "dir"}
